@@ -1,3 +1,4 @@
+CONSTANT Variant = "good"
 CONSTANT Mode = "structure"
 INIT TraceInit
 NEXT TraceNext
